@@ -342,6 +342,15 @@ def apply_impl(p, op, m):  # noqa: C901, PLR0911, PLR0912
     if k == "rename":
         p.update_renames({op[1]: op[2]})
         return p
+    if k == "rename-f":
+        # the same renaming made through the FUNCTIONS (every function that has the name), not through the pipeline
+        for f in list(p.functions):
+            if op[1] in f.parameters or op[1] in (f.output_name if isinstance(f.output_name, tuple) else (f.output_name,)):
+                f.update_renames({op[1]: op[2]})
+        return p
+    if k == "default":
+        p.update_defaults({op[1]: "UD"})
+        return p
     if k == "scope":
         mode = op[2]
         p.update_scope(op[1], inputs="*" if mode in ("in", "both") else None, outputs="*" if mode in ("out", "both") else None)
@@ -400,8 +409,13 @@ def apply_model(m, op, q):  # noqa: C901, PLR0912
         m.groups.append(frozenset([f"j{n}"]))
         m.must.add(f"jo{n}")
         m.njoin += 1
-    elif k == "rename":
+    elif k in ("rename", "rename-f"):
         m.M[inv[op[1]]] = op[2]
+    elif k == "default":
+        orig = inv[op[1]]
+        for f in m.spec["funcs"]:
+            if orig in f["params"] and orig not in f.get("bound", {}):
+                f.setdefault("pfdef", {})[orig] = "UD"
     elif k == "scope":
         names = set()
         if op[2] in ("in", "both"):
@@ -455,6 +469,13 @@ def build(base, hist):
     p = _quiet(build_base, base)
     m = Model(base)
     for i, op in enumerate(hist):
+        if i and hist[i - 1][0] in ("pickle", "copy"):
+            # use the copied / unpickled object once before it is rewritten again: its lazily computed state (defaults, root
+            # arguments, composed functions) then exists and a rewrite that fails to reset it becomes observable
+            try:
+                behaviour(p, m)
+            except Exception:  # noqa: BLE001, S110
+                pass
         try:
             q = _quiet(apply_impl, p, op, m)
         except Rejected:
@@ -501,6 +522,10 @@ def ops_of(p, m, hist, tier):  # noqa: C901, PLR0912
     cur = [m.M[n] for n in roots + outs]
     for c in cur:
         ops.append(["rename", c, fresh(c)])
+    for c in ([m.M[roots[0]]] if roots else []) + ([m.M[outs[0]]] if outs else []):
+        ops.append(["rename-f", c, fresh(c)])  # through the functions (matters after pickle: back-references)
+    if m.fam == "dag" and roots and not any(o[0] == "default" for o in hist):
+        ops.append(["default", m.M[roots[0]]])  # a default set AFTER construction (must survive copies, nesting, ...)
     # the scope name is a proper prefix of an existing name (first letter of the first output): "o" for o0, o1, ...;
     # a scope that merely BEGINS a name must still be prepended to it
     sc = sorted(outs)[0].split(".")[-1][0]
@@ -907,7 +932,10 @@ def run_history(base, hist, state_oracle=True, info=None):  # noqa: C901, PLR091
     info["canon"] = canon(q) + " | " + m.key() + _provenance(hist)
     info["model"] = m
     if callable(state_oracle):
-        state_oracle = state_oracle(info["canon"])
+        # a state that was reached before is not examined again - except when the last step made a NEW object (copy,
+        # pickle, join, ...): what that object computes depends on how the operation carried hidden state over, which two
+        # histories ending in the same visible state need not share
+        state_oracle = state_oracle(info["canon"]) or nonmut
     if kind == "split":
         parts = p._c10_parts  # noqa: SLF001
         names = [n for part in parts for g in structure(part) for n in g]
@@ -953,7 +981,7 @@ def run_history(base, hist, state_oracle=True, info=None):  # noqa: C901, PLR091
 
 
 def _provenance(hist) -> str:
-    kinds = sorted({op[0] for op in hist if op[0] in ("pickle", "copy")})
+    kinds = sorted({op[0] for op in hist if op[0] in ("pickle", "copy", "rename-f")})  # rename-f: the pipeline's own caches were reset indirectly
     return " | via:" + ",".join(kinds) if kinds else ""
 
 
@@ -1029,6 +1057,9 @@ def plan(tier, seed):
         for b in bases(tier):
             n = 12 if b["fam"] == "dag" else 6
             stages.append(("hand-picked-bases-depth2", [(b, 2, c, n) for c in range(n)]))
+        # one tiny pipeline to depth 3 (e.g. nest; update_defaults; copy)
+        tiny = {"id": "dag:chain2", "fam": "dag", "spec": {"funcs": [_F("f0", ["x"], ["o0"]), _F("f1", ["o0", "y"], ["o1"])]}}
+        stages.append(("tiny-chain-depth3", [(tiny, 3, c, 16) for c in range(16)]))
     else:
         for b in bases(tier):
             n = 16
